@@ -25,6 +25,12 @@ class Ctx:
         self.prop, self.tier, self.seed, self.root, self.log, self.ncpu = prop, tier, seed, root, log, ncpu
         self.scratch = os.path.join(TARGET, "run", f"{prop}-{tier}-{os.getpid()}")
         os.makedirs(self.scratch, exist_ok=True)
+        # keep only the two most recent scratch directories of this (property, tier)
+        import shutil
+        rd = os.path.join(TARGET, "run")
+        old = sorted((d for d in os.listdir(rd) if d.startswith(f"{prop}-{tier}-") and os.path.join(rd, d) != self.scratch), key=lambda d: os.path.getmtime(os.path.join(rd, d)))
+        for d in old[:-2]:
+            shutil.rmtree(os.path.join(rd, d), ignore_errors=True)
 
 
 def base_env():
